@@ -18,7 +18,7 @@ REGISTRY = {}
 OPEN = {
     "C01": ["C01_parse_sem for an ARBITRARY surface style: forall sty a, parse_media (render_media sty a) = Ok (sem a) -- proved for the canonical style (C01_canonical_text: every tag through the tokenizer and its parser) and, for arbitrary styles, in layers (tokenizer under any padding, attribute order, unknown attributes ignored, dispatch, CRLF/blank/comment lines, assembly); the composition over all styles is not one theorem (durations and floats no longer enter as hypotheses: C01_duration_exact, C18_duration_hypothesis, C18_parsed_float)"],
     "C02": ["C02_parse_sem for an ARBITRARY surface style -- proved for the canonical style (C02_canonical_text) and in layers for arbitrary styles (tokenizer under any padding, unknown attributes ignored, attribute order for three tags, dispatch, source order); the composition over all styles is not one theorem; frame rates enter as ufloat_rt"],
-    "C03": ["C03_parsed_wf: forall s p, parse_media s = Ok p -> wf_media p = true -- not a theorem and not true unconditionally: a parse result can hold an unquoted SCTE35-* value with a comma or an EXTINF title that the writer cannot express; C03_roundtrip is stated for the well-formed parse results (wf_media, decidable, evaluated on a parsed example) and membership is sampled by the correspondence check; the float/duration parts of the domain (dur_rt, float_rt) hold for every duration below 2^20 s and every float the reader accepts (C03_float_hypotheses)",
+    "C03": ["C03_roundtrip_parsed is stated for parse results with durations below 2^20 s and plain unquoted SCTE35-* values (media_small: decidable, no reference to the float conversions); outside it (a duration of 12 days or more, an unquoted SCTE35-* value with a comma or quote, which the writer cannot express) the round trip is sampled by the correspondence check only",
             "byte-identical second serialisation and the order inside a key list: FALSE in general (known findings D20, D9-K1); keys are compared as sets, a map's keys are the reader's keys"],
     "C04": ["ufloat_rt x (FRAME-RATE) / float_rt x (TIME-OFFSET) for every f32 with at most 3 decimals: C04_roundtrip holds for every parse result under this decidable hypothesis on the modelled std float conversions; float_rt holds for every float the reader accepts (C18_parsed_float); ufloat_rt (the {:.3} writer) is not a theorem for arbitrary values (true for rates that are three-decimal numbers: sweep C18_frame_rate_sweep, exercised by the correspondence check)"],
     "C05": ["C05_cost: cost_parse s <= c1*|s| + c2*|items s|*K s -- no cost model was built; time scaling is MEASURED in the thorough tier (five input families at n and 4n, evidence field streams.time_scaling), not proved"],
